@@ -188,4 +188,75 @@ Theorem ts_read_end ncols subset tail :
   ts_read swp cap0 ncols subset ([223; 91; 5] ++ tail) = Err SBDF_TABLEEND.
 Proof. reflexivity. Qed.
 
+(* full read of a slice as a codec statement: exact whatever follows, every strict prefix refused (C06) *)
+Lemma rspec_read_cols_all cols :
+  (forall c, In c cols -> wf_cs c) ->
+  rspec (read_cols swp cap0 (length cols) None) (concat (map enc_cs cols)) (map (fun c => Some (owned_cs c)) cols).
+Proof.
+  induction cols as [|c cols IH]; intros W; cbn [length read_cols map concat option_map].
+  - apply rspec_ret.
+  - eapply rspec_bind.
+    + eapply rspec_ext; [apply app_nil_r|]. eapply rspec_bind; [apply rspec_cs; apply W; now left|]. apply rspec_ret.
+    + eapply rspec_ext; [apply app_nil_r|]. eapply rspec_bind; [apply IH; intros d Hd; apply W; now right|]. apply rspec_ret.
+Qed.
+
+Definition owned_ts (cols : list (cs va)) : ts (cs va) :=
+  {| tscols := map (fun c => Some (owned_cs c)) cols; tsowned := true |}.
+
+Lemma rspec_sec_read_slice :
+  rspec (v <-r sec_read ;;
+         if v =? SBDF_TABLEEND_SECTIONID then rfail SBDF_TABLEEND else
+         if negb (v =? SBDF_TABLESLICE_SECTIONID) then rfail SBDF_ERROR_UNEXPECTED_SECTION_ID else rret tt)
+        [223; 91; 3] tt.
+Proof.
+  eapply rspec_ext; [apply app_nil_r|]. eapply rspec_bind; [apply (rspec_sec_read SBDF_TABLESLICE_SECTIONID)|].
+  change (SBDF_TABLESLICE_SECTIONID =? SBDF_TABLEEND_SECTIONID) with false. cbn iota. rewrite Z.eqb_refl. cbn [negb]. apply rspec_ret.
+Qed.
+
+Theorem rspec_ts cols : wf_ts cols -> rspec (ts_read swp cap0 (zlen cols) None) (enc_ts cols) (owned_ts cols).
+Proof.
+  intros (Hn & W). pose proof (zlen_nonneg cols) as N. unfold enc_ts.
+  (* re-associate ts_read as: marker; count; columns *)
+  assert (E : forall s, ts_read swp cap0 (zlen cols) None s =
+      rd_bind (v <-r sec_read ;;
+               if v =? SBDF_TABLEEND_SECTIONID then rfail SBDF_TABLEEND else
+               if negb (v =? SBDF_TABLESLICE_SECTIONID) then rfail SBDF_ERROR_UNEXPECTED_SECTION_ID else rret tt)
+        (fun _ => cc <-r read_int32 swp ;;
+                  if cc <? 0 then rfail SBDF_ERROR_INVALID_SIZE else
+                  if negb (cc =? zlen cols) then rfail SBDF_ERROR_COLUMN_COUNT_MISMATCH else
+                  ralloc cap0 (array_capacity cc * 8) ;;r
+                  l <-r read_cols swp cap0 (Z.to_nat cc) None ;;
+                  rret {| tscols := l; tsowned := true |}) s).
+  { intros s. unfold ts_read, rd_bind, rfail, rret. destruct (sec_read s) as [[v s1]|]; [|reflexivity].
+    destruct (v =? SBDF_TABLEEND_SECTIONID); [reflexivity|]. destruct (negb (v =? SBDF_TABLESLICE_SECTIONID)); reflexivity. }
+  split.
+  - intros tail. fold (enc_ts cols). rewrite (ts_read_exact cols None tail (conj Hn W)). now rewrite mask_none.
+  - intros n Hn'. rewrite E.
+    assert (R : rspec (rd_bind (v <-r sec_read ;;
+               if v =? SBDF_TABLEEND_SECTIONID then rfail SBDF_TABLEEND else
+               if negb (v =? SBDF_TABLESLICE_SECTIONID) then rfail SBDF_ERROR_UNEXPECTED_SECTION_ID else rret tt)
+        (fun _ => cc <-r read_int32 swp ;;
+                  if cc <? 0 then rfail SBDF_ERROR_INVALID_SIZE else
+                  if negb (cc =? zlen cols) then rfail SBDF_ERROR_COLUMN_COUNT_MISMATCH else
+                  ralloc cap0 (array_capacity cc * 8) ;;r
+                  l <-r read_cols swp cap0 (Z.to_nat cc) None ;;
+                  rret {| tscols := l; tsowned := true |}))
+        ([223; 91; 3] ++ enc32 swp (zlen cols) ++ concat (map enc_cs cols)) (owned_ts cols)).
+    { eapply rspec_bind; [apply rspec_sec_read_slice|].
+      eapply rspec_bind; [apply rspec_int32; unfold i32_range; lia|].
+      destruct (zlen cols <? 0) eqn:C0; [lia|]. rewrite Z.eqb_refl. cbn [negb].
+      eapply rspec_ext; [apply app_nil_l|]. eapply rspec_bind; [unfold ralloc, alloc_ok; apply rspec_ret|].
+      eapply rspec_ext; [apply app_nil_r|]. eapply rspec_bind.
+      - replace (Z.to_nat (zlen cols)) with (length cols) by (unfold zlen; now rewrite Nat2Z.id). now apply rspec_read_cols_all.
+      - apply rspec_ret. }
+    destruct R as [_ T]. apply T. exact Hn'.
+Qed.
+
+(* sbdf_ts_skip ends where a full read of the slice ends *)
+Theorem ts_skip_exact cols tail : wf_ts cols -> ts_skip swp cap0 (zlen cols) (enc_ts cols ++ tail) = Ok (tt, tail).
+Proof.
+  intros W. unfold ts_skip, rd_bind, ralloc, alloc_ok, rret.
+  now rewrite (ts_read_exact cols (Some (repeat 0 (Z.to_nat (zlen cols)))) tail W).
+Qed.
+
 End SliceFacts.
